@@ -199,9 +199,9 @@ let ghost h = ith.index@ as int;
 //@unit id=Dq file=src/diff_parser.rs fn=unquote_git_path ret=r
 //@contract
     ensures
-        strip_quotes_spec(path@) is None ==> r@ == path@, // [Dq.post.unquoted_path_unchanged]
-        strip_quotes_spec(path@) matches Some(inner) ==> r@ == lossy_utf8_spec(c_unquote_spec(utf8_bytes(inner))), // [Dq.post.quoted_path_c_unquoted]
-        r@ == unquote_spec(path@), // [Dq.post.path_as_git_meant]
+        strip_quotes_spec(path@) is None ==> r@ == utf8_bytes(path@), // [Dq.post.unquoted_path_unchanged]
+        strip_quotes_spec(path@) matches Some(inner) ==> r@ == c_unquote_spec(utf8_bytes(inner)), // [Dq.post.quoted_path_c_unquoted]
+        r@ == unquote_bytes_spec(path@), // [Dq.post.path_as_git_meant]
 //@edit rule=E13 find=<<path .strip_prefix('"') .and_then(|path| path.strip_suffix('"'))>>
 verif_strip_quotes(path)
 //@edit rule=E14 find=<<quoted.bytes()>>
@@ -233,7 +233,9 @@ let ghost p0 = bytes.pending();
                         bytes.pending() == p0.skip(min_int(j as int, p0.len() as int)), // [Dq.inv.octal_cursor]
                         j == 1 ==> value <= 31, // [Dq.inv.octal_fits_u8]
                         j == 0 ==> value <= 3,
-//@edit rule=E6 before=<<String::from_utf8_lossy>>
+//@edit rule=E13 find=<<path.as_bytes().to_vec()>>
+verif_str_to_byte_vec(path)
+//@edit rule=E6 before=<<unquoted }>>
 None => { break; } } }
 //@edit rule=ghost before=<<} None => { break; } } }>>
         proof {
@@ -246,8 +248,6 @@ None => { break; } } }
             assert(c_unquote_spec(p_start) == seq![unquoted@.last()] + c_unquote_spec(bytes.pending())); // [Dq.step.byte_is_the_unquoted_one]
             lemma_push_concat(out0, unquoted@.last(), c_unquote_spec(bytes.pending()));
         }
-//@edit rule=E13 find=<<String::from_utf8_lossy(&unquoted).into_owned()>>
-verif_from_utf8_lossy(&unquoted)
 //@end
 
 //@unit id=Da file=src/diff_parser.rs fn=line_changes_from_diff ret=r
@@ -255,7 +255,7 @@ verif_from_utf8_lossy(&unquoted)
     ensures
         r is Err <==> parse_patch(patch_diff@) is None, // [Da.post.err_iff_unparsable]
         r matches Ok(m) ==> forall|i: int| 0 <= i < parse_patch(patch_diff@).unwrap().len() && !removed_file(#[trigger] parse_patch(patch_diff@).unwrap()[i]) // [Da.post.key_is_the_path_git_meant]
-            ==> m@.contains_key(path_of(strip_once(unquote_spec(parse_patch(patch_diff@).unwrap()[i].target_file@)))),
+            ==> m@.contains_key(path_of_bytes(strip_once_bytes(unquote_bytes_spec(parse_patch(patch_diff@).unwrap()[i].target_file@)))),
         r matches Ok(m) ==> (kf3_carve_out(parse_patch(patch_diff@).unwrap()) // [Da.post.only_deleted_files_are_skipped.carved]
             ==> only_deleted_files_are_skipped(parse_patch(patch_diff@).unwrap(), m@)),
         r matches Ok(m) ==> forall|key: PathBuf| #[trigger] m@.contains_key(key) // [Da.post.removed_files_contribute_nothing]
@@ -322,9 +322,8 @@ None => { break; } } }
         assert forall|key: PathBuf, j: int| last_file_with_key(files, n, key, j) implies last_file_with_key(files, files.len() as int, key, j) by {}
         assert forall|key: PathBuf, j: int| last_file_with_key(files, files.len() as int, key, j) implies last_file_with_key(files, n, key, j) by {}
     }
-//@chain rule=E13 find=<<.into()>> to=verif_str_into_pathbuf
-//@chain rule=E13 find=<<.strip_prefix(>> to=verif_diff_strip_prefix recvprefix=<<&>> optional=1
-//@chain rule=E13 find=<<.trim_start_matches(>> to=verif_diff_trim_start_matches recvprefix=<<&>> optional=1
+//@edit rule=E13 find=<<$a.strip_prefix(b"b/").unwrap_or(&$a)>>
+verif_bytes_unwrap_or(verif_bytes_strip_b_slash(&$a), &$a)
 //@end
 
 } // verus!
